@@ -683,3 +683,9 @@ def run(ctx):
         ctx.sample('stream/%s' % spec['gen'], {'spec': spec, 'inspectors': insps,
                                                 'schedule_classes': [s[0] for s in scheds]})
         eval_stream(ctx, case)
+
+
+# a third of the cases runs with the library's loggers at DEBUG and a handler that renders every record (debug=True in a
+# service's configuration); what the inspectors conclude may not depend on it
+from vlib import envmodes as _envmodes_dbg  # noqa: E402
+eval_stream = _envmodes_dbg.with_modes(eval_stream, debug=lambda case: True)
